@@ -226,4 +226,96 @@ def wfSynthArgs (c : Core) : Val → Bool
   | .dict l => wfPairs c l
   | _ => false
 
+/-! ### well-formed flat argument lists -/
+
+def vrep1 (p : Val → Bool) : List Val → Bool
+  | [] => true
+  | a :: r => p a && vrep1 p r
+
+def vrep2 (p q : Val → Bool) : List Val → Bool
+  | [] => true
+  | a :: b :: r => p a && q b && vrep2 p q r
+  | _ => false
+
+def vrep3 (p q s : Val → Bool) : List Val → Bool
+  | [] => true
+  | a :: b :: c :: r => p a && q b && s c && vrep3 p q s r
+  | _ => false
+
+/-- the bus argument of `mapn`: an int (one channel) or a live bus object -/
+def Val.isMnBus (c : Core) : Val → Bool
+  | .int _ => true
+  | .bus h => match c.buses[h]? with
+    | Option.some b => b.index.isSome && b.channels.isSome
+    | Option.none => false
+  | _ => false
+
+def wfMn (c : Core) : List Val → Bool
+  | k :: b :: r => k.isCtlLike && b.isMnBus c && wfMn c r
+  | _ => true
+
+/-- the value part of a `setn` pair: a list of numbers or one number -/
+def Val.isSetnVal (c : Core) : Val → Bool
+  | .list l => vrep1 (Val.isNumLike c) l
+  | v => v.isNumLike c
+
+def wfSetn (c : Core) (head : Val → Bool) : List Val → Bool
+  | k :: v :: r => head k && v.isSetnVal c && wfSetn c head r
+  | _ => true
+
+def wfCpairs (c : Core) : List Val → Bool
+  | .int _ :: v :: r => v.isNumLike c && wfCpairs c r
+  | _ :: _ :: _ => false
+  | _ => true
+
+
+/-! ### what each client call needs from its caller -/
+
+def actOk (a : Int) : Bool := decide (0 ≤ a ∧ a ≤ 4)
+
+/-- Arguments of the right kinds for the reference to be satisfiable at all (a control NAME where
+    a control is expected, numbers where numbers are expected, live buses/buffers as arguments,
+    add action of the table).  Nesting depth, list lengths, ids, targets are unrestricted. -/
+def Op.wf (c : Core) : Op → Bool
+  | .synth _ _ _ act args => actOk act && wfSynthArgs c args
+  | .grain _ _ act args => actOk act && wfSynthArgs c args
+  | .replace _ _ args _ => wfSynthArgs c args
+  | .group _ _ act => actOk act
+  | .map _ _ args => vrep2 Val.isCtlLike (Val.isIntLike c) args
+  | .mapn _ _ args => wfMn c args
+  | .set _ args => wfPairs c args
+  | .setn _ args => wfSetn c Val.isCtlLike args
+  | .fill _ args => vrep3 Val.isCtlLike (Val.isIntLike c) (Val.isNumLike c) args
+  | .release _ t => match t with
+    | .none => true
+    | .int _ => true
+    | .flt _ => true
+    | _ => false
+  | .sget _ idx => idx.isCtlLike
+  | .sgetn _ idx count => idx.isCtlLike && count.isIntLike c
+  | .reorder act _ _ => decide (0 ≤ act ∧ act ≤ 3)
+  | .cset _ vals => vrep1 (Val.isNumLike c) vals
+  | .csetn _ vals => vrep1 (Val.isNumLike c) vals
+  | .csetat _ _ vals => vrep1 (Val.isNumLike c) vals
+  | .csetnat _ _ vals => vrep1 (Val.isNumLike c) vals
+  | .cpairs _ pairs => wfCpairs c pairs
+  | .cfill _ value ch => value.isNumLike c && ch.isIntLike c
+  | .bfill _ _ _ vals => match vals with
+    | v :: r => v.isNumLike c && vrep3 (Val.isIntLike c) (Val.isIntLike c) (Val.isNumLike c) r
+    | [] => false
+  | .bset _ args => vrep2 (Val.isIntLike c) (Val.isNumLike c) args
+  | .bsetn _ args => wfSetn c (Val.isIntLike c) args
+  | .bget _ idx => idx.isIntLike c
+  | .bgetn _ idx count => idx.isIntLike c && count.isIntLike c
+  | .bgen _ cmd args _ _ _ => (cmd == "sine1" || cmd == "cheby") && vrep1 (Val.isNumLike c) args
+  | .bsine k _ lists _ _ _ =>
+    decide (lists.length = (if k = 0 then 1 else k) ∧ k ≤ 3) && lists.all (vrep1 (Val.isNumLike c))
+  | .bnorm _ max _ => max.isNumLike c
+  | .balloc h _ =>            -- a Buffer created with `frames=None` cannot be allocated
+    match c.bufs[h]? with
+    | some b => b.bufnum.isNone || (b.frames.isSome && b.channels.isSome)
+    | none => true
+  | .bcopy _ _ a b n => a.isIntLike c && b.isIntLike c && n.isIntLike c
+  | _ => true
+
 end Sc3Verif.C17
